@@ -275,6 +275,27 @@ func c07(c *Ctx) {
 			}
 			r.Check(key, good, st.Pos(), fmt.Sprintf("Timestamp copied from %s must be guarded by %s.Timestamp > %s.Timestamp (any mirrored form)", from, from, into))
 		}
+		// the raised timestamp is not undone: the local copy is not overwritten as a whole after (or
+		// instead of) the timestamp update and before it is stored back
+		for _, st := range sts {
+			fa, ok := st.Addr.(*ssa.FieldAddr)
+			if !ok {
+				continue
+			}
+			al, ok := fa.X.(*ssa.Alloc)
+			if !ok {
+				continue
+			}
+			undone := ""
+			for _, ref := range referrers(al) {
+				if ws, ok := ref.(*ssa.Store); ok && ws.Addr == ssa.Value(al) && inRegion(ws.Block(), s.FoundBlk) {
+					if instrReaches(st, ws) || instrReaches(ifOf(st), ws) {
+						undone = s.Fn.Prog.Fset.Position(ws.Pos()).String()
+					}
+				}
+			}
+			r.Check(key+":not-undone", undone == "", st.Pos(), "the merged copy is not overwritten as a whole after its timestamp was raised"+map[bool]string{true: "", false: " (overwritten at " + undone + ")"}[undone == ""])
+		}
 	}
 
 	c.Rule("C07.R1", "counters: found-branch stores Value = old + incoming; timestamp only raised", 3, func(r *Rule) {
@@ -543,6 +564,10 @@ func c07(c *Ctx) {
 		}
 	})
 
+	c.Rule("C07.R7", "modified copies of map elements (the maps hold Counter/Gauge/Timer/Set by value) are stored back into the map on every path", 8, func(r *Rule) {
+		writeBackAll(c, r, nil)
+	})
+
 	c.Rule("C07.R6", "four-type exhaustiveness: a function traversing >= 2 of Counters/Timers/Gauges/Sets of one MetricMap traverses all four", 15, func(r *Rule) {
 		fourTypeRule(c, r, nil)
 	})
@@ -633,4 +658,137 @@ func fourTypeRule(c *Ctx, r *Rule, filter func(fn *ssa.Function) bool) {
 			r.Check(key, len(missing) == 0, fn.Pos(), fmt.Sprintf("traverses %d of 4 metric types of %s; missing %v", len(fs), base, missing))
 		}
 	}
+}
+
+// ---------- write-back of modified map-element copies ----------
+
+var aggregateElem = map[string]bool{"Counter": true, "Gauge": true, "Timer": true, "Set": true}
+
+// writeBackSites: the maps of a MetricMap hold their elements by value.  For every local copy of
+// an element (a variable initialised from a map lookup, a range value or an Each-callback
+// parameter) that is modified afterwards, every path to a return must store the copy back into a
+// map (m[k] = copy) after the last modification; otherwise the update is lost.
+func writeBackRule(r *Rule, fn *ssa.Function) int {
+	n := 0
+	eachInstr(fn, func(in ssa.Instruction) {
+		a, ok := in.(*ssa.Alloc)
+		if !ok {
+			return
+		}
+		nm := namedOf(derefType(a.Type()))
+		if nm == nil || !aggregateElem[nm.Obj().Name()] || nm.Obj().Pkg() == nil || nm.Obj().Pkg().Path() != Mod {
+			return
+		}
+		isCopySource := func(v ssa.Value) bool {
+			switch x := v.(type) {
+			case *ssa.Parameter:
+				return fn.Parent() != nil // the element handed to an Each-style callback; a plain by-value parameter is the caller's operand, not a map element
+			case *ssa.Lookup:
+				return true
+			case *ssa.Extract:
+				switch x.Tuple.(type) {
+				case *ssa.Lookup, *ssa.Next:
+					return true
+				}
+			}
+			return false
+		}
+		fromCopy := false
+		dirtyStores := 0
+		escapes := false
+		for _, ref := range referrers(a) {
+			switch x := ref.(type) {
+			case *ssa.Store:
+				if x.Addr == ssa.Value(a) {
+					if isCopySource(x.Val) {
+						fromCopy = true
+					} else {
+						dirtyStores++
+					}
+				}
+			case *ssa.FieldAddr:
+				for _, r2 := range referrers(x) {
+					if st, ok := r2.(*ssa.Store); ok && st.Addr == ssa.Value(x) {
+						dirtyStores++
+					}
+				}
+			case *ssa.UnOp:
+				for _, r2 := range referrers(x) {
+					switch r2.(type) {
+					case *ssa.Return:
+						escapes = true
+					}
+				}
+			case *ssa.MakeClosure, ssa.CallInstruction:
+				escapes = true // address passed on: the callee may store it
+			}
+		}
+		if !fromCopy || dirtyStores == 0 || escapes {
+			return
+		}
+		n++
+		const (
+			evCopy = iota
+			evDirty
+			evWriteBack
+		)
+		res := runAutomaton(fn, 0, func(in ssa.Instruction) int {
+			switch x := in.(type) {
+			case *ssa.Store:
+				if x.Addr == ssa.Value(a) {
+					if isCopySource(x.Val) {
+						return evCopy
+					}
+					return evDirty
+				}
+				if fa, ok := x.Addr.(*ssa.FieldAddr); ok && fa.X == ssa.Value(a) {
+					return evDirty
+				}
+			case *ssa.MapUpdate:
+				if ld, ok := x.Value.(*ssa.UnOp); ok && ld.Op == token.MUL && ld.X == ssa.Value(a) {
+					return evWriteBack
+				}
+			}
+			return -1
+		}, func(state, ev int) int {
+			switch ev {
+			case evCopy, evWriteBack:
+				return 0
+			default:
+				return 1
+			}
+		})
+		bad := ""
+		for b, st := range res.ExitStates {
+			if st&2 != 0 {
+				bad = fmt.Sprintf("a path reaches the return in block %d with the modified copy not stored back", b.Index)
+			}
+		}
+		r.Check(FuncName(fn)+":write-back:"+a.Comment, bad == "", a.Pos(), "local copy "+a.Comment+" of a map element ("+nm.Obj().Name()+") is stored back into the map after its last modification on every path"+map[bool]string{true: "", false: ": " + bad}[bad == ""])
+	})
+	return n
+}
+
+func writeBackAll(c *Ctx, r *Rule, only func(fn *ssa.Function) bool) {
+	for _, fn := range c.W.ModuleFuncs() {
+		p := fnPkgPath(fn)
+		if p != Mod && p != Mod+"/pkg/statsd" {
+			continue
+		}
+		if only != nil && !only(fn) {
+			continue
+		}
+		if writeBackRule(r, fn) > 0 {
+			c.SawFunc(FuncName(fn))
+		}
+	}
+}
+
+// ifOf: the branch instruction guarding st's block (the nearest controlling If), or st itself.
+func ifOf(st ssa.Instruction) ssa.Instruction {
+	cs := condsFor(st.Block())
+	if len(cs) == 0 {
+		return st
+	}
+	return cs[len(cs)-1].If
 }
